@@ -26,7 +26,8 @@ RULE = ("the malformed stream: every documented class of invalid input instantia
         "free parameter in any form (bare Parameter, vector element, 2*t, t/2, -t, t+c, a+b, partially bound a+b, sin(t), t*t) handed to the basis / placeholder "
         "constructors and, inside random circuits at a random position across two partitions, to partition_circuit_qubits, partition_problem, cut_gates, find_cuts, "
         "next to the same requests with the expression fully bound; deterministic family (oracle only): dictionary-form reconstruction over 2-3 partitions "
-        "with different numbers of commuting groups, results dictionary in every key order, counts correct / off in one partition / interchanged between two; compared: error enum (ValueError / accepted) and, on refusal, deep snapshots of the arguments")
+        "with different numbers of commuting groups, results dictionary in every key order, counts correct / off in one partition / interchanged between two; "
+        "deterministic family (oracle on every case): expand_observables with observables of every width 1..n+2 for original circuits of n = 2..6 qubits (only width n accepted); compared: error enum (ValueError / accepted) and, on refusal, deep snapshots of the arguments")
 ASSUMPTIONS = ["'without modifying the arguments' is a runtime statement: checked by deep snapshots before/after every refused call",
                "partition / search / decomposition refusals reuse the models of C10, C07, C02, C13, C17 (delegated cases)"]
 
@@ -172,7 +173,27 @@ def _family_result_counts():
                                         "oracle_only": True, "always_oracle": True})
 
 
+def _family_expand_widths():
+    """Deterministic family (seed independent): expand_observables with observables of EVERY width from one qubit up to two more than the
+    original circuit has (n = 2..6 original qubits, in one register or several, onto final circuits that interleave fresh qubits as
+    cut_wires does), one to three observables per request, any letters.  Only width n is a valid request; every other width -- narrower as
+    well as wider, a single qubit included -- is the documented observable size mismatch and has to be refused."""
+    import random
+    r = random.Random(180915)
+    for n in range(2, 7):
+        for w in range(1, n + 3):
+            fresh = (n + w) % 4
+            layout = [["o", i] for i in range(n)] + [["f", i] for i in range(fresh)]
+            r.shuffle(layout)
+            regs = [n] if (n + w) % 2 else [1, n - 1]
+            k = 1 + (n + w) % 3
+            obs = [{"l": "".join(r.choice("XYZ") if j == 0 else r.choice("IXYZ") for _ in range(w)), "p": 0} for j in range(k)]
+            yield ("expand", {"n": n, "obs": obs, "layout": layout, "regs": regs, "final_regs": bool(w % 2), "clbits": 0, "creg": 0,
+                              "cls": "expand_width", "always_oracle": True})
+
+
 def cases(rng, tier):
+    yield from _family_expand_widths()
     yield from _family_result_counts()
     yield from _family_unbound_angles()
     N = 40 if tier == "quick" else 400
@@ -378,7 +399,23 @@ def run_real(kind, payload):
     if kind == "refuse":
         return c02.run_real("refuse", payload)
     if kind == "expand":
-        return c17.run_real("expand", payload)
+        if not payload["obs"] or not payload["obs"][0]["l"]:
+            return c17.run_real("expand", payload)
+        from qiskit_addon_cutting import expand_observables
+        orig, final = c17._expand_objs(payload)
+        pl = c17._plist(payload["obs"], len(payload["obs"][0]["l"]))
+
+        def snap():
+            return (pl.z.tolist(), pl.x.tolist(), pl.phase.tolist(), [id(q) for q in orig.qubits], len(orig.data),
+                    [id(q) for q in final.qubits], [id(c) for c in final.clbits], len(final.data))
+        before = snap()
+        try:
+            out = expand_observables(pl, orig, final)
+        except ValueError:
+            if snap() != before:
+                return {"error": "ValueError", "mutated": True}
+            raise
+        return {"ok": c17._canon_paulis(out)}
     if kind == "sim":
         return c13.run_real("simulate", payload)
     if kind == "recon":
@@ -637,6 +674,14 @@ def _expected_invalid(kind, payload):
         return True
     if kind == "recon":
         return True if (bool(payload.get("drop")) != bool(payload.get("extra"))) else None
+    if kind == "expand":
+        # observables of another width than the original circuit (narrower or wider), or an original qubit missing from the final circuit
+        if not payload["obs"] or not payload["obs"][0]["l"]:
+            return None
+        lay = [tuple(t) for t in payload["layout"]]
+        if len(payload["obs"][0]["l"]) != payload["n"] or any(("o", i) not in lay for i in range(payload["n"])):
+            return True
+        return False if payload.get("cls") == "expand_width" else None   # the content of a valid expansion is C17's
     if kind != "validate":
         return None
     w = payload["what"]
@@ -694,6 +739,10 @@ def oracle(kind, payload):
     if exp:
         if real.get("error") == "ValueError":
             return None
+        if kind == "expand":
+            return (f"expand_observables: observables {[o['l'] for o in payload['obs']]} on {len(payload['obs'][0]['l'])} qubit(s) for an original "
+                    f"circuit of {payload['n']} qubit(s) (registers {payload['regs']}; final circuit layout {payload['layout']}, 'o' = original "
+                    f"qubit, 'f' = fresh one) -- a size mismatch / missing qubit -- was not refused with ValueError: {str(real)[:200]}")
         if kind == "validate" and payload.get("what") == "unbound_angle":
             return (f"{payload['gate']}({payload['expr']}), an angle with a free parameter, handed to {payload['entry']}"
                     + (f" (on qubits {payload['q']} at position {payload['pos']} of a {payload['nq']}-qubit circuit)" if "q" in payload else "")
